@@ -5,11 +5,16 @@
    (2) The transcription of validate.go's stamping code (Engine/Stamp.v) against direct runs of
        the real setMetadataVisitor / checkOwnership on the label and annotation maps of the
        case's objects: error or not, and the two maps afterwards.
+   (4) The request level of the pre-flight check: the model run with the logging handler
+       (Engine/OwnershipReq.v) yields, per install / upgrade, the GETs of the ownership look-up;
+       they must be exactly the first requests that reached the simulated API server, and the
+       only ones when nothing else happened (refusal, dry run).
    (3) The stamping model against the API server's store: after every successful install /
        upgrade of the history, each manifest resource is stored with every label and annotation
        the model computes for it (the forced three and whatever the chart rendered). *)
 From Coq Require Import List String Bool Arith.
-From Helm Require Import Common.Assoc Engine.Types Engine.Eff Engine.Ops Engine.Cluster Engine.Seq Engine.Stamp.
+From Helm Require Import Common.Assoc Engine.Types Engine.Eff Engine.Ops Engine.Cluster Engine.Seq Engine.Stamp
+                         Engine.OwnershipReq.
 From Helm Require Export Run.RunEng.
 Import ListNotations.
 
@@ -87,12 +92,56 @@ Fixpoint steps_stored_ok (hs : list hstep) (os : list step_obs) : bool :=
   | _, _ => true
   end.
 
-Record case := mkC7 { c7_eng : RunEng.case; c7_stamps : list stamp_obs }.
+(* (4): [log] = the first (number of manifest resources + 1) requests of an install / upgrade as
+   they arrived at the server, GETs included ([] for other steps) *)
+Definition rq_gets (t : list tev) : option (list (verb * string)) :=
+  match t with
+  | TKube (KCall n m) :: _ => if String.eqb n "existing" then Some m else None
+  | _ => None
+  end.
+
+Fixpoint reqs_eqb (a b : list (verb * string)) : bool :=
+  match a, b with
+  | [], [] => true
+  | x :: t, y :: u => verb_eqb (fst x) (fst y) && String.eqb (snd x) (snd y) && reqs_eqb t u
+  | _, _ => false
+  end.
+
+Definition is_inst_upg (h : hstep) : bool :=
+  match h with
+  | HOp c => match oc_op c with OpInstall _ _ _ _ _ | OpUpgrade _ _ _ _ _ => true | _ => false end
+  | HEdit _ => false
+  end.
+
+Definition step_log_ok (h : hstep) (m : world * outcome * list tev) (log : list (verb * string)) : bool :=
+  if negb (is_inst_upg h) then true else
+  let t := snd m in
+  match rq_gets t with
+  | Some g =>
+      reqs_eqb (firstn (List.length g) log) g
+      && (match t with [_] => Nat.eqb (List.length log) (List.length g) | _ => true end)
+  | None => match t with [] => match log with [] => true | _ => false end | _ => true end
+  end.
+
+Fixpoint steps_log_ok (hs : list hstep) (ms : list (world * outcome * list tev)) (logs : list (list (verb * string))) : bool :=
+  match hs, ms, logs with
+  | h :: t, m :: u, l :: v => step_log_ok h m l && steps_log_ok t u v
+  | [], [], [] => true
+  | _, _, _ => false
+  end.
+
+Record case := mkC7 { c7_eng : RunEng.case; c7_stamps : list stamp_obs; c7_logs : list (list (verb * string)) }.
+
+Definition logs_ok (c : case) : bool :=
+  steps_log_ok (c_steps (c7_eng c))
+               (run_history_rq RunEng.rn RunEng.ns (c_steps (c7_eng c)) (mkW [] (c_init (c7_eng c))))
+               (c7_logs c).
 
 Definition case_ok7 (c : case) : bool :=
   RunEng.case_ok (c7_eng c)
   && forallb stamp_ok (c7_stamps c)
-  && steps_stored_ok (c_steps (c7_eng c)) (c_obs (c7_eng c)).
+  && steps_stored_ok (c_steps (c7_eng c)) (c_obs (c7_eng c))
+  && logs_ok c.
 
 Fixpoint mismatches_from7 (i : nat) (cs : list case) : list nat :=
   match cs with
@@ -105,4 +154,5 @@ Definition mismatches := mismatches_from7 0.
 (* for debugging a mismatch: (engine agreement per step, stamps, store) *)
 Definition diag7 (c : case) :=
   (RunEng.diag (c7_eng c), map stamp_ok (c7_stamps c),
-   steps_stored_ok (c_steps (c7_eng c)) (c_obs (c7_eng c))).
+   steps_stored_ok (c_steps (c7_eng c)) (c_obs (c7_eng c)), logs_ok c,
+   map (fun m => rq_gets (snd m)) (run_history_rq RunEng.rn RunEng.ns (c_steps (c7_eng c)) (mkW [] (c_init (c7_eng c))))).
